@@ -108,3 +108,181 @@ def included(pa: str, pb: str, timeout_ms=60000):
     if r == z3.sat:
         return "cex", sol.model()[s].as_string(), dt
     return "unknown", "solver timeout", dt
+
+
+# ------------------------------------------------------------------ ambiguity of repetitions (catastrophic backtracking)
+def _anychar():
+    return z3.AllChar(z3.ReSort(z3.StringSort()))
+
+
+_NONASCII = None
+
+
+def _cat(av):
+    """OVER-approximation of a character category (every candidate it produces is confirmed on the real `re` afterwards)"""
+    global _NONASCII
+    if _NONASCII is None:
+        _NONASCII = z3.Range(chr(0x80), chr(0x2FFFF))
+    if av is sc.CATEGORY_DIGIT:
+        return z3.Union(z3.Range("0", "9"), _NONASCII)
+    if av is sc.CATEGORY_WORD:
+        return z3.Union(z3.Range("0", "9"), z3.Range("a", "z"), z3.Range("A", "Z"), z3.Re("_"), _NONASCII)
+    if av is sc.CATEGORY_SPACE:
+        return z3.Union(*[z3.Re(c) for c in " \t\n\r\f\v"], _NONASCII)
+    raise Unsupported(str(av))
+
+
+def _cls2(items):
+    neg = False
+    parts = []
+    for op, av in items:
+        if op is sc.NEGATE:
+            neg = True
+        elif op is sc.LITERAL:
+            parts.append(z3.Re(chr(av)))
+        elif op is sc.RANGE:
+            parts.append(z3.Range(chr(av[0]), chr(av[1])))
+        elif op is sc.CATEGORY:
+            if neg:
+                raise Unsupported("category inside a negated class")
+            parts.append(_cat(av))
+        else:
+            raise Unsupported(str(op))
+    u = parts[0] if len(parts) == 1 else z3.Union(*parts)
+    return z3.Intersect(_anychar(), z3.Complement(u)) if neg else u
+
+
+def tr2(seq):
+    """like tr() but total on the tokenizer's constructs by OVER-approximating: look-arounds and anchors are epsilon"""
+    out = []
+    for op, av in seq:
+        if op is sc.LITERAL:
+            out.append(z3.Re(chr(av)))
+        elif op is sc.NOT_LITERAL:
+            out.append(z3.Intersect(_anychar(), z3.Complement(z3.Re(chr(av)))))
+        elif op is sc.ANY:
+            out.append(z3.Intersect(_anychar(), z3.Complement(z3.Re("\n"))))
+        elif op is sc.IN:
+            out.append(_cls2(av))
+        elif op is sc.BRANCH:
+            out.append(z3.Union(*[tr2(a) for a in av[1]]) if len(av[1]) > 1 else tr2(av[1][0]))
+        elif op is sc.SUBPATTERN:
+            out.append(tr2(av[3]))
+        elif op in (sc.MAX_REPEAT, sc.MIN_REPEAT):
+            lo, hi, sub = av
+            r = tr2(sub)
+            if lo == 0 and hi == sc.MAXREPEAT:
+                out.append(z3.Star(r))
+            elif lo == 1 and hi == sc.MAXREPEAT:
+                out.append(z3.Plus(r))
+            elif lo == 0 and hi == 1:
+                out.append(z3.Option(r))
+            elif hi == sc.MAXREPEAT:
+                out.append(z3.Concat(z3.Loop(r, lo, lo), z3.Star(r)))
+            else:
+                out.append(z3.Loop(r, lo, hi))
+        elif op in (sc.ASSERT, sc.ASSERT_NOT, sc.AT):
+            continue
+        else:
+            raise Unsupported(str(op))
+    if not out:
+        return z3.Re("")
+    return out[0] if len(out) == 1 else z3.Concat(*out)
+
+
+def _nonempty(rx, timeout_ms=20000, minlen=1):
+    s = z3.String("s")
+    sol = z3.Solver()
+    sol.set("timeout", timeout_ms)
+    sol.add(z3.InRe(s, rx), z3.Length(s) >= minlen)
+    r = sol.check()
+    if r == z3.sat:
+        return "sat", sol.model()[s].as_string()
+    return ("unsat", None) if r == z3.unsat else ("unknown", None)
+
+
+def _zstr(w):
+    """python str of a z3 string literal (z3 prints non-printable characters as \\u{..})"""
+    import re as _re
+    return _re.sub(r"\\u\{([0-9a-fA-F]+)\}", lambda m: chr(int(m.group(1), 16)), w)
+
+
+def repeats(pattern: str):
+    """[(path_prefix_items, node)] for every unbounded repetition of the pattern; path_prefix_items = the items that must match before it"""
+    out = []
+
+    def walk(seq, before):
+        seq = list(seq)
+        for i, (op, av) in enumerate(seq):
+            pre = before + seq[:i]
+            if op is sc.BRANCH:
+                for a in av[1]:
+                    walk(a, pre)
+            elif op is sc.SUBPATTERN:
+                walk(av[3], pre)
+            elif op in (sc.MAX_REPEAT, sc.MIN_REPEAT):
+                lo, hi, sub = av
+                if hi == sc.MAXREPEAT or hi >= 8:
+                    out.append((pre, (op, av)))
+                walk(sub, pre)
+            elif op in (sc.ASSERT, sc.ASSERT_NOT):
+                walk(av[1], pre)
+    walk(sp.parse(pattern), [])
+    return out
+
+
+def ambiguity(pattern: str, timeout_ms=20000):
+    """for every unbounded repetition X* of the pattern decide (z3, no length bound, over-approximated classes):
+       (a) two alternatives of X match a common string, (b) some string of L(X) is also in L(X X+).
+    Either one makes a failing match explore exponentially many decompositions.  Returns a list of dicts:
+    {'node': text, 'status': 'unambiguous'|'ambiguous'|'unknown'|'unsupported', 'witness': w, 'prefix': p, 'queries': n, 'solver_s': t}"""
+    res = []
+    for pre, (op, av) in repeats(pattern):
+        lo, hi, sub = av
+        t = time.time()
+        q = 0
+        entry = {"node": str(sub)[:120].replace("\n", " "), "status": "unambiguous", "witness": None, "prefix": "", "queries": 0}
+        try:
+            x = tr2(sub)
+            alts = None
+            items = list(sub)
+            while len(items) == 1 and items[0][0] is sc.SUBPATTERN:
+                items = list(items[0][1][3])
+            if len(items) == 1 and items[0][0] is sc.BRANCH:
+                alts = [tr2(a) for a in items[0][1][1]]
+            found = None
+            if alts:
+                for i in range(len(alts)):
+                    for j in range(i + 1, len(alts)):
+                        q += 1
+                        st, w = _nonempty(z3.Intersect(alts[i], alts[j]), timeout_ms)
+                        if st == "sat":
+                            found = w
+                            break
+                        if st == "unknown":
+                            entry["status"] = "unknown"
+                    if found:
+                        break
+            if not found:
+                q += 1
+                st, w = _nonempty(z3.Intersect(x, z3.Concat(x, z3.Plus(x))), timeout_ms)
+                if st == "sat":
+                    found = w
+                elif st == "unknown":
+                    entry["status"] = "unknown"
+            if found:
+                entry["status"] = "ambiguous"
+                entry["witness"] = _zstr(found)
+                try:
+                    q += 1
+                    st, p = _nonempty(tr2(pre), timeout_ms, minlen=0) if pre else ("sat", "")
+                    entry["prefix"] = _zstr(p) if st == "sat" else ""
+                except Unsupported:
+                    entry["prefix"] = ""
+        except Unsupported as e:
+            entry["status"] = "unsupported"
+            entry["detail"] = str(e)
+        entry["queries"] = q
+        entry["solver_s"] = round(time.time() - t, 3)
+        res.append(entry)
+    return res
